@@ -27,7 +27,7 @@ ASSUMPTIONS = [
     "vlib.chunktools edits (dropping SLnK chunks, appending a -1 terminator) produce files the format documentation allows",
 ]
 REQUIRED_LABELS = {
-    "quick": ["save_load_midway", "freed_slot_middle_saved", "cycle_saved", "variant_subset", "variant_all_removed", "slnk_written", "modules_at_positions_above_256", "written_as_old_version"],
+    "quick": ["save_load_midway", "freed_slot_middle_saved", "cycle_saved", "variant_subset", "variant_all_removed", "slnk_written", "modules_at_positions_above_256", "written_as_old_version", "file_with_empty_positions", "fan_out_of_more_than_255"],
     "thorough": ["save_load_midway", "freed_slot_middle_saved", "cycle_saved", "fan_in3_saved", "variant_subset", "variant_all_removed", "slnk_written"],
 }
 
@@ -46,7 +46,7 @@ def plan(tier):
         descs.append({"kind": "random", "examples": per, "max_modules": 8 if tier == "quick" else 16, "max_ops": 24 if tier == "quick" else 40})
     for i in range(2 if tier == "quick" else 8):
         # projects whose linked modules sit at positions around and above 256
-        descs.append({"kind": "random", "big": True, "examples": 12 if tier == "quick" else 80, "max_modules": 8, "max_ops": 16})
+        descs.append({"kind": "random", "big": True, "wide": i % 2 == 1, "examples": 12 if tier == "quick" else 80, "max_modules": 8, "max_ops": 16})
     return descs
 
 
@@ -150,8 +150,8 @@ def check_variants(data, E, variant, labels):
 
 
 @st.composite
-def c08_case(draw, max_modules, max_ops, big=False):
-    case = draw(c07.op_list(max_modules, max_ops, with_save_load=True, big=big))
+def c08_case(draw, max_modules, max_ops, big=False, wide=False):
+    case = draw(c07.op_list(max_modules, max_ops, with_save_load=True, big=big, wide=wide))
     ver = draw(st.sampled_from([None, None, [1, 9, 4, 2], [1, 7, 0, 0], [2, 0, 0, 0]]))
     if ver:
         case["sunvox_version"] = ver  # written as a file of that SunVox version
@@ -174,7 +174,39 @@ def run_case(ctx, case):
     labels, world, E = c07.run_ops(ctx, case, prop="C08", on_save_load=on_save_load)
     data, loaded = compare_saved(world.project, E, labels, "final")
     check_variants(data, E, case["variant"], labels)
+    check_with_holes(world.project, data, E, labels)
     return labels | labels_sl
+
+
+def check_with_holes(project, data, E, labels):
+    """The same file with empty module positions in it (the sections of modules that take no part in any
+    link are emptied, as when a user deleted those modules in SunVox): every other module keeps its
+    position, the graph and the slot order are what was saved."""
+    from rv.api import read_sunvox_file
+    from vlib import build
+
+    linked = {a for a, b in E} | {b for a, b in E}
+    n = len(project.modules)
+    free = [i for i in range(1, n - 1) if i not in linked and project.modules[i] is not None]
+    if not free:
+        return
+    holes = set(free[:1] + free[-1:])
+    loaded = read_sunvox_file(BytesIO(build.blank_module_sections(data, holes)))
+    for i in range(n):
+        m0, m1 = project.modules[i], loaded.modules[i] if i < len(loaded.modules) else None
+        if i in holes:
+            if m1 is not None:
+                raise PropertyViolation("C08.holes.position", "position %d was emptied in the file and holds %r after loading" % (i, type(m1).__name__))
+        elif (m0 is None) != (m1 is None) or (m0 is not None and (type(m0) is not type(m1) or m1.index != i)):
+            raise PropertyViolation("C08.holes.position", "with positions %r emptied, position %d holds %r (index %r) after loading, the file has %r there" % (sorted(holes), i, type(m1).__name__, getattr(m1, "index", None), type(m0).__name__))
+    lm.check_consistency(loaded, E, "C08.holes")
+    a, b = lm.stripped_tables(project), lm.stripped_tables(loaded)
+    for i in range(n):
+        if i not in holes and a[i] != (b[i] if i < len(b) else None):
+            raise PropertyViolation("C08.holes.tables", "with positions %r emptied, module %d loads with tables %r, saved %r" % (sorted(holes), i, b[i] if i < len(b) else None, a[i]))
+    labels.add("file_with_empty_positions")
+    if any(type(project.modules[i]).__name__ == "MetaModule" for i in range(min(holes) + 1, n) if project.modules[i] is not None):
+        labels.add("container_module_after_empty_position")
 
 
 def run_dfs(ctx, depth, first):
@@ -230,7 +262,7 @@ def run_shard(ctx, desc):
             ctx.mark_nontrivial(case)
         ctx.sample(case)
 
-    run_property(ctx, c08_case(desc["max_modules"], desc["max_ops"], big=desc.get("big", False)), body, desc["examples"], tag="ops_big" if desc.get("big") else "ops")
+    run_property(ctx, c08_case(desc["max_modules"], desc["max_ops"], big=desc.get("big", False), wide=desc.get("wide", False)), body, desc["examples"], tag="ops_big" if desc.get("big") else "ops")
 
 
 def replay(ctx, doc):
